@@ -723,6 +723,23 @@ func init() {
 			}
 			c19Schedules(r, "C19.schedules-long-strings", fmt.Sprintf("%d descriptions with quoted strings of 65..300 characters, valid or with an unmapped character at the start / in the middle / at the end, or unterminated, under all schedules with <= 1 deviation: lookups or an error with a line number, no panic, no deadlock, no goroutine left parked", len(long)), c19Font(true), long, 1, 0.2)
 		}
+		// positioning lookups: every single-token deviation of descriptions of GPOS types 1 to 4 (class lists,
+		// matrices, anchors: syntax the substitution descriptions of the repository's test cases do not have)
+		{
+			gposDescs := []string{
+				"GPOS1: [A-C] -> y+10 ||\n\tL -> dx-1, M -> dx+1, N -> x+1",
+				"GPOS2: A B -> dx-100, C C -> dx+100, \"AB\" -> dx-100 & y-10",
+				"GPOS2:\n\t/A L B C/\n\tfirst B C, A L;\n\tsecond A M, B C;\n\t_, _, _,\n\t_, dx-50 & y-10, dx+10,\n\t_, dx-10 & y+10, dx-30",
+				"GPOS3:\n\tA: 1,1 to 2,2; B: 1,0 to 0,1 ||\n\tM: 1,1 to 2,2",
+				"GPOS4:\n\tmark M: 0@100,100;\n\tmark N: 1@200,100;\n\tbase A: @400,1000 @500,1000;\n\tbase B: @500,1000 @600,900;",
+			}
+			var gm []string
+			for _, d := range gposDescs {
+				gm = append(gm, d)
+				gm = append(gm, c19in.Mutations(d, 0)...)
+			}
+			c19Schedules(r, "C19.schedules-gpos-mutations-p1", fmt.Sprintf("%d inputs: descriptions of positioning lookups of types 1 to 4 (ranges, pairs, class lists and matrices, entry / exit points, mark and base anchors) and their single-token deletions / replacements / insertions, under all schedules with <= 1 deviation: lookups or an error with a line number, no panic, deadlock or leaked goroutine, and the call returns", len(gm)), c19Font(true), gm, 1, 0.3)
+		}
 		// fonts Parse cannot work with: no character map at all, and only a subtable GetBest does not select
 		{
 			nocmap := c19Font(true)
